@@ -7,6 +7,8 @@ package hash
 // be32at(h, off): the big-endian 32-bit number stored in bytes off..off+3 of an event ID.
 //@ spec be32at(h Event, off int) int = ((h[off]*256 + h[off+1])*256 + h[off+2])*256 + h[off+3]
 //@
+//@ trusted func (Event).String
+//@   pure
 //@ func (Event).Epoch
 //@   ensures  result == be32at(h, 0)
 //@ func (Event).Lamport
